@@ -20,6 +20,24 @@ Definition modelled_index_writers : list string :=
 Definition all_key_writers_modelled : bool :=
   forallb (fun w : string * string => mem (fst w) modelled_key_writers) key_writers.
 
+(** the only places where a [_keys] dict may leave its Entity: the deprecated [Entity.keys] property (stated
+    assumption: callers do not write through it) and [Entity.copy], which hands it to the constructor (which only
+    iterates [keys.items()] and stores through __setitem__) *)
+Definition known_key_escapes : list (string * string) :=
+  [("Entity.keys", "return"); ("Entity.copy", "arg:Entity")].
+Definition all_key_escapes_known : bool :=
+  forallb (fun w : string * string =>
+             existsb (fun k : string * string => String.eqb (fst w) (fst k) && String.eqb (snd w) (snd k)) known_key_escapes)
+          key_escapes.
+(** VMF.entities is mutated, and VMF.spawn assigned, only by modelled functions *)
+Definition modelled_entity_list_writers : list string :=
+  ["VMF.__init__"; "VMF.add_ent"; "VMF.add_ents"; "VMF.remove_ent"].
+Definition all_entity_list_writers_modelled : bool :=
+  forallb (fun w : string * string => mem (fst w) modelled_entity_list_writers) entity_list_writers.
+Definition modelled_spawn_writers : list string := ["VMF.__init__"; "VMF.parse"].
+Definition all_spawn_writers_modelled : bool :=
+  forallb (fun w : string * string => mem (fst w) modelled_spawn_writers) spawn_writers.
+
 Definition site_fn (s : string * string * bool * keyclass * bool) : string := fst (fst (fst (fst s))).
 Definition site_ix (s : string * string * bool * keyclass * bool) : string := snd (fst (fst (fst s))).
 Definition site_add (s : string * string * bool * keyclass * bool) : bool := snd (fst (fst s)).
